@@ -508,7 +508,7 @@ func (t *TriDense) InverseTri(a Triangular) error {
 	t.Copy(a)
 	work := getFloat64s(3*n, false)
 	iwork := getInts(n, false)
-	cond := lapack64.Trcon(CondNorm, t.mat, work, iwork)
+	cond := 1 / lapack64.Trcon(CondNorm, t.mat, work, iwork)
 	putFloat64s(work)
 	putInts(iwork)
 	if math.IsInf(cond, 1) {
@@ -872,7 +872,7 @@ func (t *TriDense) SolveTo(dst *Dense, trans bool, b Matrix) error {
 
 	work := getFloat64s(3*n, false)
 	iwork := getInts(n, false)
-	cond := lapack64.Trcon(CondNorm, t.mat, work, iwork)
+	cond := 1 / lapack64.Trcon(CondNorm, t.mat, work, iwork)
 	putFloat64s(work)
 	putInts(iwork)
 	if cond > ConditionTolerance {
